@@ -353,7 +353,11 @@ func influxLines(c *Case) []byte {
 				b.WriteString(`"` + influxEsc(string(f.S), `"\`) + `"`)
 			}
 		}
-		b.WriteString(" " + strconv.FormatInt(l.Ts, 10) + "\n")
+		if l.NoTs {
+			b.WriteString("\n")
+		} else {
+			b.WriteString(" " + strconv.FormatInt(l.Ts, 10) + "\n")
+		}
 	}
 	return b.Bytes()
 }
